@@ -6,7 +6,7 @@ pub struct Expr { pub id: int }
 impl Expr { #[verifier::external_body] pub fn end(&self) -> u32 { 0 } }
 pub struct Block { pub id: int, pub symbols: SymbolTable }
 impl Block { #[verifier::external_body] pub fn start(&self) -> u32 { 0 } #[verifier::external_body] pub fn end(&self) -> u32 { 0 } }
-pub struct Catch { pub id: int }
+pub struct Catch { pub id: int, pub name: Token, pub class: Option<Token>, pub block: Block, pub symbols: SymbolTable }
 impl Catch { #[verifier::external_body] pub fn start(&self) -> u32 { 0 } #[verifier::external_body] pub fn end(&self) -> u32 { 0 } }
 pub struct Return { pub value: Option<Expr>, pub t: Token }
 impl Return { #[verifier::external_body] pub fn start(&self) -> u32 { 0 } }
@@ -16,7 +16,7 @@ impl LabelEmitter {
   #[verifier::external_body] pub fn emit(&mut self) -> (r: Label) ensures r.0 == old(self).next, final(self).next == old(self).next + 1 { Label(0) }
 }
 /// what the compiler was asked to do, in order; statements carry the try depth at which they were compiled
-pub enum Ev { Emit(SymbolicByteCode), Expr(int), Block(int, nat), BeginScope, EndScope, DropLocals, Catch(int, nat), Body(nat, nat) }
+pub enum Ev { Emit(SymbolicByteCode), Expr(int), Block(int, nat), BeginScope, EndScope, DropLocals, Catch(int, nat), Body(nat, nat), VarGet(int), Declare(int), Define(int, nat) }
 pub struct Compiler {
   pub try_attributes: Option<TryAttributes>,
   pub loop_attributes: Option<LoopAttributes>,
@@ -41,7 +41,6 @@ impl Compiler {
   #[verifier::external_body] pub fn emit_byte(&mut self, op: SymbolicByteCode, line: u32) ensures quiet(old(self), final(self)), final(self).log@ == old(self).log@.push(Ev::Emit(op)) { }
   #[verifier::external_body] pub fn expr(&mut self, e: &Expr) ensures quiet(old(self), final(self)), final(self).log@ == old(self).log@.push(Ev::Expr(e.id)) { }
   #[verifier::external_body] pub fn block(&mut self, b: &Block) ensures quiet(old(self), final(self)), final(self).log@ == old(self).log@.push(Ev::Block(b.id, try_depth_of(old(self).try_attributes))) { }
-  #[verifier::external_body] pub fn catch(&mut self, c: &Catch, try_end_label: Label) ensures quiet(old(self), final(self)), final(self).log@ == old(self).log@.push(Ev::Catch(c.id, try_depth_of(old(self).try_attributes))) { }
   #[verifier::external_body] pub fn begin_scope(&mut self, table: &SymbolTable) ensures quiet(old(self), final(self)), final(self).log@ == old(self).log@.push(Ev::BeginScope) { }
   #[verifier::external_body] pub fn end_scope(&mut self, end_line: u32) ensures quiet(old(self), final(self)), final(self).log@ == old(self).log@.push(Ev::EndScope) { }
   #[verifier::external_body] pub fn drop_local_count(&self, scope_depth: usize) -> (r: usize) { 0 }
